@@ -76,6 +76,10 @@ func (rn *runner) modelledReqX(epName, api, user, plan, hUser, hPlan, method, ci
 			// what the server accepted must be usable: one valid insert, one valid search per ranking index
 			rn.followUp(user, plan, id, req.line())
 			rn.w.c.do(request{user, plan, "DELETE", "/v2/collections/" + id, "", nil})
+			// the collection is gone again: its create request is no part of the history of later creates
+			if h := rn.w.hist[key]; len(h) > 0 && h[len(h)-1] == req.line() {
+				rn.w.hist[key] = h[:len(h)-1]
+			}
 			delete(rn.w.hist, user+"/"+id)
 			delete(rn.w.rejected, user+"/"+id)
 		case strings.HasSuffix(epName, "Insert"):
